@@ -57,7 +57,7 @@ func c05Proxy(r *Run) {
 	modes := make([]int, n)
 	seekable := make([]bool, n)
 	for i := range frames {
-		frames[i] = GenFrame(T, GenOpts{Version: v, Requests: true, Responses: true, MaxBytes: 20000, BigChance: 0.1,
+		frames[i] = GenFrame(T, GenOpts{Version: v, Requests: true, Responses: true, MaxBytes: c05MaxBytes(optsA, optsB), BigChance: 0.1,
 			Compressible: T.Bool("compressible", 0.5), HeaderFlags: true, AllowTracingOnRequests: true}, int16(T.Draw("stream", 120)))
 		if comp != primitive.CompressionNone && T.Bool("compressflag", 0.6) {
 			markCompressed(T, frames[i])
@@ -509,4 +509,13 @@ func c05SafeDecode(c frame.RawCodec, wire []byte) (f *frame.Frame, err error) {
 		}
 	}()
 	return c.DecodeFrame(bytes.NewReader(wire))
+}
+
+// c05MaxBytes: a link with a capacity of a few bytes costs several scheduler steps per byte; keep frames
+// small there so that the step budget is about liveness, not about link speed.
+func c05MaxBytes(a, b LinkOpts) int {
+	if a.Capacity < 64 || b.Capacity < 64 {
+		return 1500
+	}
+	return 20000
 }
